@@ -340,7 +340,10 @@ def build_variable(eds, section, node_id, index, subindex=0):
 
 
 def copy_variable(eds, section, subindex, src_var):
-    name = eds.get(section, str(subindex))
+    name = eds.get(section, str(subindex), fallback=None)
+    if name is None:
+        # Not every subindex needs to be listed, keep the default name then
+        return None
     var = copy.copy(src_var)
     # It is only the name and subindex that varies
     var.name = name
